@@ -239,6 +239,23 @@ VH_GROUP(cmyka)
                                  vh::S() << "cmyka=(" << int(c[0]) << "," << int(c[1]) << "," << int(c[2]) << "," << int(c[3]) << ",255) -> ("
                                          << int(q[0]) << "," << int(q[1]) << "," << int(q[2]) << "," << int(q[3]) << ") err=" << e);
                 }
+                if ((b & 7) == 5 && (g & 7) == 3)
+                {
+                    // the two sides of cmyka -> rgba differ in channel depth: the round trip must still hold within one 8-bit level
+                    gil::rgba16_pixel_t q16; gil::color_convert(ca, q16);
+                    int e16 = 0; const int want16[3] = {r * 257, g * 257, b * 257};
+                    for (int k = 0; k < 3; ++k) e16 = std::max(e16, std::abs(int(q16[k]) - want16[k]));
+                    ++ctx.evaluations; ++ctx.witness["cmyka_cross_depth"];
+                    if (e16 > 257 + 128 && (cap == 0 || unit++ < cap))
+                        ctx.fail(rgbid("cmyka8>rgba16", "rgb8", r, g, b), "roundtrip-error>1", vh::S() << "rgba16=(" << int(q16[0]) << "," << int(q16[1]) << "," << int(q16[2]) << "," << int(q16[3]) << ") err=" << e16 << "/65535");
+                    gil::rgb32f_pixel_t pf(r / 255.0f, g / 255.0f, b / 255.0f); gil::cmyk32f_pixel_t cf; gil::color_convert(pf, cf);
+                    gil::pixel<gil::float32_t, gil::cmyka_layout_t> caf(cf[0], cf[1], cf[2], cf[3], gil::float32_t(1.0f));
+                    gil::rgba8_pixel_t qf; gil::color_convert(caf, qf);
+                    int ef = std::max(std::abs(int(qf[0]) - r), std::max(std::abs(int(qf[1]) - g), std::abs(int(qf[2]) - b)));
+                    ++ctx.evaluations;
+                    if (ef > 1 && (cap == 0 || unit++ < cap))
+                        ctx.fail(rgbid("cmyka32f>rgba8", "rgb8", r, g, b), "roundtrip-error>1", vh::S() << "rgba8=(" << int(qf[0]) << "," << int(qf[1]) << "," << int(qf[2]) << "," << int(qf[3]) << ") err=" << ef);
+                }
                 if ((b & 63) == 5 && (g & 31) == 3)
                 {
                     const int alphas[] = {0, 1, 128, 254};
